@@ -532,35 +532,58 @@ func (w *vfSigWorld) sign(name string, digest []byte, tag string) []byte {
 	return s
 }
 
-// abstractOf classifies a concrete signature with the harness's own ecrecover over the harness's own digest.
-func (w *vfSigWorld) abstractOf(sig [65]byte) string { return w.keys.Recover(w.digest, sig[:]) }
+// abstractOver classifies a concrete signature with the harness's own ecrecover over a digest the harness computed itself.
+func (w *vfSigWorld) abstractOver(sig [65]byte, digest []byte) string {
+	return w.keys.Recover(digest, sig[:])
+}
+
+// freshVAA builds a new VAA object with the world's body (no struct copy of an object that was used before).
+func (w *vfSigWorld) freshVAA() *vaa.VAA {
+	b := w.body
+	return &vaa.VAA{Version: b.Version, GuardianSetIndex: b.GuardianSetIndex, Timestamp: b.Timestamp, Nonce: b.Nonce,
+		EmitterChain: b.EmitterChain, TargetChain: b.TargetChain, EmitterAddress: b.EmitterAddress, Sequence: b.Sequence,
+		ConsistencyLevel: b.ConsistencyLevel, Payload: append([]byte{}, b.Payload...)}
+}
+
+// vfOwnDigest: the digest of the CURRENT field values of a Go VAA, computed with the harness's own serializer.
+func vfOwnDigest(v *vaa.VAA) []byte {
+	own := &vhVAA{Ts: uint32(v.Timestamp.Unix()), Nonce: v.Nonce, EChain: uint16(v.EmitterChain), TChain: uint16(v.TargetChain),
+		Emitter: v.EmitterAddress, Seq: v.Sequence, CL: v.ConsistencyLevel, Payload: v.Payload}
+	return own.Digest()
+}
 
 type vfVerifyFn func(v *vaa.VAA, addrs []ethcommon.Address) bool
 
 func vfRealVerify(v *vaa.VAA, addrs []ethcommon.Address) bool { return v.VerifySignatures(addrs) }
 
-// vfEvalVerify runs one real verification; the abstract signature list that is logged is the one the
-// harness's own recovery yields for the concrete bytes (so a concretisation slip cannot fake a verdict).
-func (w *vfSigWorld) vfEvalVerify(addrNames []string, idx []int, sigs [][65]byte, fn vfVerifyFn) (map[string]interface{}, map[string]interface{}) {
-	addrs := make([]ethcommon.Address, len(addrNames))
-	for i, n := range addrNames {
+// the explorer's gate with the named set = the only (current) set
+func vfExplorerVerify(v *vaa.VAA, addrs []ethcommon.Address) bool {
+	return vfExplorerPushFn(v, [][]ethcommon.Address{addrs}, 0)
+}
+
+func (w *vfSigWorld) addrsOf(names []string) ([]ethcommon.Address, []interface{}) {
+	addrs := make([]ethcommon.Address, len(names))
+	out := make([]interface{}, len(names))
+	for i, n := range names {
 		addrs[i] = w.keys.Addr(n)
+		out[i] = n
 	}
+	return addrs, out
+}
+
+// evalOn runs one real verification of v (which carries its signatures).  The abstract signature list that is
+// logged is the one the harness's own recovery yields for the concrete bytes over `digest` (the harness's own
+// digest of v's current body), so a concretisation slip cannot fake a verdict.
+func (w *vfSigWorld) evalOn(v *vaa.VAA, digest []byte, addrNames []string, fn vfVerifyFn) (map[string]interface{}, map[string]interface{}) {
+	addrs, names := w.addrsOf(addrNames)
 	asigs := []interface{}{}
-	v := *w.body
-	v.Signatures = nil
-	for i := range sigs {
-		v.Signatures = append(v.Signatures, &vaa.Signature{Index: uint8(idx[i]), Signature: sigs[i]})
-		asigs = append(asigs, map[string]interface{}{"idx": idx[i], "signer": w.abstractOf(sigs[i])})
-	}
-	names := make([]interface{}, len(addrNames))
-	for i, n := range addrNames {
-		names[i] = n
+	for _, sg := range v.Signatures {
+		asigs = append(asigs, map[string]interface{}{"idx": int(sg.Index), "signer": w.abstractOver(sg.Signature, digest)})
 	}
 	a := map[string]interface{}{"addrs": names, "sigs": asigs}
 	s := map[string]interface{}{}
 	res := false
-	if p := vfCatch(func() { res = fn(&v, addrs) }); p != "" {
+	if p := vfCatch(func() { res = fn(v, addrs) }); p != "" {
 		s["res"] = "panic"
 		s["panic_text"] = p
 	} else if res {
@@ -571,10 +594,192 @@ func (w *vfSigWorld) vfEvalVerify(addrNames []string, idx []int, sigs [][65]byte
 	return a, s
 }
 
+func (w *vfSigWorld) withSigs(idx []int, sigs [][65]byte) *vaa.VAA {
+	v := w.freshVAA()
+	for i := range sigs {
+		v.Signatures = append(v.Signatures, &vaa.Signature{Index: uint8(idx[i]), Signature: sigs[i]})
+	}
+	return v
+}
+
+func (w *vfSigWorld) vfEvalVerify(addrNames []string, idx []int, sigs [][65]byte, fn vfVerifyFn) (map[string]interface{}, map[string]interface{}) {
+	return w.evalOn(w.withSigs(idx, sigs), w.digest, addrNames, fn)
+}
+
+// ---------------------------------------------------------------- two-step histories on ONE VAA value (C04, C06)
+// compute the digest / verify, THEN change a field in place (or on a struct copy), THEN ask again.
+
+// body fields (each changes the signing body) and header / sub-second changes (which must not)
+var vfMutations = []string{"timestamp", "nonce", "emitterChain", "targetChain", "emitterAddress", "sequence", "consistencyLevel",
+	"payload-bit", "payload-append", "payload-truncate", "payload-replace",
+	"subsecond", "version", "guardianSetIndex", "signatures"}
+
+// vfMutate changes one field of the Go value.  shared = the Payload backing array is shared with another value
+// (struct copy), so it must not be written through.
+func vfMutate(v *vaa.VAA, field string, shared bool) {
+	switch field {
+	case "timestamp":
+		if v.Timestamp.Unix() >= 0xffffffff { // stay within the 32-bit whole-second range the property speaks about
+			v.Timestamp = v.Timestamp.Add(-time.Second)
+		} else {
+			v.Timestamp = v.Timestamp.Add(time.Second)
+		}
+	case "subsecond":
+		v.Timestamp = time.Unix(v.Timestamp.Unix(), int64((v.Timestamp.Nanosecond()+123456789)%1000000000))
+	case "nonce":
+		v.Nonce++
+	case "emitterChain":
+		v.EmitterChain ^= 0x0100
+	case "targetChain":
+		v.TargetChain++
+	case "emitterAddress":
+		v.EmitterAddress[31] ^= 0x01
+	case "sequence":
+		v.Sequence++
+	case "consistencyLevel":
+		v.ConsistencyLevel ^= 0x80
+	case "payload-bit":
+		if len(v.Payload) == 0 {
+			v.Payload = []byte{1}
+		} else if shared {
+			p := append([]byte{}, v.Payload...)
+			p[len(p)/2] ^= 0x10
+			v.Payload = p
+		} else {
+			v.Payload[len(v.Payload)/2] ^= 0x10 // in place, same backing array
+		}
+	case "payload-append":
+		v.Payload = append(append([]byte{}, v.Payload...), 0)
+	case "payload-truncate":
+		if len(v.Payload) > 1 {
+			v.Payload = v.Payload[:len(v.Payload)-1]
+		} else {
+			v.Payload = []byte{7, 7}
+		}
+	case "payload-replace":
+		v.Payload = []byte("another payload")
+	case "version":
+		v.Version ^= 0x02
+	case "guardianSetIndex":
+		v.GuardianSetIndex++
+	case "signatures":
+		sg := &vaa.Signature{Index: 200}
+		sg.Signature[3] = 9
+		v.Signatures = append(append([]*vaa.Signature{}, v.Signatures...), sg)
+	default:
+		panic("vfMutate: unknown field " + field)
+	}
+}
+
+// vfEvalRedigest (C04): v1 --SigningMsg--> d1, change `field`, --SigningMsg / SerializeBody / Marshal--> d2, body2, marshal2.
+func vfEvalRedigest(base *vfVal, field string, copyMode bool) (map[string]interface{}, map[string]interface{}) {
+	mode := "inplace"
+	if copyMode {
+		mode = "copy"
+	}
+	a := map[string]interface{}{"field": field, "mode": mode}
+	s := map[string]interface{}{}
+	p := vfCatch(func() {
+		g := vfToGo(base)
+		a["v1"] = vfFromGo(g)
+		d1 := g.SigningMsg().Bytes()
+		_ = g.HexDigest()
+		_ = g.SerializeBody()
+		target := g
+		if copyMode {
+			w := *g // struct copy: unexported fields travel with it
+			target = &w
+		}
+		vfMutate(target, field, copyMode)
+		a["v2"] = vfFromGo(target)
+		d2 := target.SigningMsg().Bytes()
+		body2 := target.SerializeBody()
+		m2, err := target.Marshal()
+		if err != nil {
+			panic("Marshal returned an error: " + err.Error())
+		}
+		bs := vfT.Layout.bodyStart(len(target.Signatures))
+		s["body2"] = vfInts(body2)
+		s["marshal2"] = vfInts(m2)
+		s["digest2H2"] = bytes.Equal(d2, vfKeccak2(body2))
+		s["digestChanged"] = !bytes.Equal(d1, d2)
+		s["bodyStart"] = bs
+		s["digestFromMarshal"] = bs <= len(m2) && bytes.Equal(d2, vfKeccak2(m2[bs:]))
+		// the value the copy was taken from keeps its own digest
+		s["originalKept"] = !copyMode || (bytes.Equal(g.SigningMsg().Bytes(), d1) && bytes.Equal(d1, vfKeccak2(g.SerializeBody())))
+		s["d1"], s["d2"] = hex.EncodeToString(d1), hex.EncodeToString(d2)
+	})
+	if p != "" {
+		s["panic"] = p
+	}
+	return a, s
+}
+
+// vfEvalReverify (C06): verify once, change `field` of the same value (or of a struct copy), verify again.  The logged
+// abstract signature list is the one over the digest of the CHANGED body (harness's own serializer): after a
+// body change the old signatures recover to unrelated addresses, so the specification requires a rejection.
+func (w *vfSigWorld) vfEvalReverify(addrNames []string, idx []int, sigs [][65]byte, fn vfVerifyFn, field string, copyMode bool) (map[string]interface{}, map[string]interface{}) {
+	v := w.withSigs(idx, sigs)
+	addrs, _ := w.addrsOf(addrNames)
+	first := "false"
+	if p := vfCatch(func() {
+		if fn(v, addrs) {
+			first = "true"
+		}
+		_ = v.SigningMsg()
+		_ = v.HexDigest()
+	}); p != "" {
+		first = "panic"
+	}
+	target := v
+	if copyMode {
+		c := *v
+		target = &c
+	}
+	vfMutate(target, field, copyMode)
+	a, s := w.evalOn(target, vfOwnDigest(target), addrNames, fn)
+	mode := "inplace"
+	if copyMode {
+		mode = "copy"
+	}
+	a["field"], a["mode"] = field, mode
+	s["first"] = first
+	return a, s
+}
+
+// vfExplorerSetsEval: two guardian sets (old = index 0 with nOld keys o1.., current = index 1 with nCur keys c1..); a VAA
+// naming set `named`, validly signed by the first m guardians of that set, is pushed through the explorer's gate.
+func vfExplorerSetsEval(w *vfSigWorld, nOld, nCur, named, m int) (map[string]interface{}, map[string]interface{}) {
+	setNames := [][]string{make([]string, nOld), make([]string, nCur)}
+	for k := range setNames[0] {
+		setNames[0][k] = fmt.Sprintf("o%d", k+1)
+	}
+	for k := range setNames[1] {
+		setNames[1][k] = fmt.Sprintf("c%d", k+1)
+	}
+	sets := make([][]ethcommon.Address, 2)
+	for si := range sets {
+		sets[si], _ = w.addrsOf(setNames[si])
+	}
+	idx := make([]int, m)
+	sigs := make([][65]byte, m)
+	for k := 0; k < m; k++ {
+		idx[k] = k
+		sigs[k] = w.concrete(setNames[named][k], 0)
+	}
+	fn := func(v *vaa.VAA, _ []ethcommon.Address) bool { return vfExplorerPushFn(v, sets, named) }
+	a, s := w.vfEvalVerify(setNames[named], idx, sigs, fn)
+	a["sets"] = []int{nOld, nCur}
+	a["named"] = named
+	return a, s
+}
+
 // ---------------------------------------------------------------- hooks filled by the per-package files
 
-var vfQuorumFn func(int) int                                      // CalculateQuorum as linked into this package (nil in pkg/vaa)
-var vfExplorerVerifyFn vfVerifyFn                                 // explorer-backend verifyVAA (nil elsewhere)
+var vfQuorumFn func(int) int // CalculateQuorum as linked into this package (nil in pkg/vaa)
+// explorer-backend: Push of the gossip consumer wired as in main.go; sets[i] = keys of guardian set i, the last
+// one is current, the VAA names set `named` (nil elsewhere)
+var vfExplorerPushFn func(v *vaa.VAA, sets [][]ethcommon.Address, named int) bool
 var vfProcBodyFn func(t *testing.T, vecs []vfVector, tr *vhTrace) // node/pkg/processor: handleMessage
 
 // ---------------------------------------------------------------- vectors exported by TLC
@@ -593,6 +798,13 @@ type vfVector struct {
 	// C06
 	Addrs []string `json:"addrs"`
 	Sigs  []vfASig `json:"sigs"`
+	VKind string   `json:"vkind"`
+	// replay of two-step histories / explorer set pairs
+	Field string `json:"field"`
+	Mode  string `json:"mode"`
+	Idx   []int  `json:"idx"`
+	Sets  []int  `json:"sets"`
+	Named int    `json:"named"`
 }
 
 func vfLoadVectors(path string) ([]vfVector, error) {
@@ -697,6 +909,12 @@ func TestVerifFmtVectors(t *testing.T) {
 			}
 			tr.Emit(1, "Encode", vfTag(a, vc), s)
 			procVecs = append(procVecs, *vc)
+			// two-step history on this value: digest, change one field (rotating over all fields), digest again
+			{
+				a, s := vfEvalRedigest(m, vfMutations[vc.ID%len(vfMutations)], (vc.ID/len(vfMutations))%2 == 1)
+				a["src"] = "vec-redigest"
+				tr.Emit(1, "Redigest", a, s)
+			}
 		case "C05V":
 			a, s := vfEvalEncode(vc.V)
 			tr.Emit(1, "Encode", vfTag(a, vc), s)
@@ -717,10 +935,45 @@ func TestVerifFmtVectors(t *testing.T) {
 			}
 			a, s := w.vfEvalVerify(vc.Addrs, idx, sigs, vfRealVerify)
 			tr.Emit(1, "Verify", vfTag(a, vc), s)
-			if vfExplorerVerifyFn != nil {
-				a, s := w.vfEvalVerify(vc.Addrs, idx, sigs, vfExplorerVerifyFn)
+			if vfExplorerPushFn != nil {
+				a, s := w.vfEvalVerify(vc.Addrs, idx, sigs, vfExplorerVerify)
 				tr.Emit(1, "ExplorerVerify", vfTag(a, vc), s)
 			}
+			// two-step history: a list that verifies, then one field of the same VAA value changes
+			if vc.VKind == "valid" && len(sigs) > 0 {
+				field, cp := vfMutations[vc.ID%len(vfMutations)], (vc.ID/len(vfMutations))%2 == 1
+				a, s := w.vfEvalReverify(vc.Addrs, idx, sigs, vfRealVerify, field, cp)
+				a["src"] = "vec-reverify"
+				tr.Emit(1, "Verify", a, s)
+				if vfExplorerPushFn != nil {
+					a, s := w.vfEvalReverify(vc.Addrs, idx, sigs, vfExplorerVerify, field, cp)
+					a["src"] = "vec-reverify"
+					tr.Emit(1, "ExplorerVerify", a, s)
+				}
+			}
+		case "C04R": // replay of a two-step digest history
+			a, s := vfEvalRedigest(vc.V, vc.Field, vc.Mode == "copy")
+			tr.Emit(1, "Redigest", vfTag(a, vc), s)
+		case "C06R": // replay of a two-step verification history (valid signatures at vc.Idx, then a field changes)
+			w := worlds[0]
+			sigs := make([][65]byte, len(vc.Idx))
+			for k, ix := range vc.Idx {
+				if ix < len(vc.Addrs) {
+					sigs[k] = w.concrete(vc.Addrs[ix], 0)
+				}
+			}
+			a, s := w.vfEvalReverify(vc.Addrs, vc.Idx, sigs, vfRealVerify, vc.Field, vc.Mode == "copy")
+			tr.Emit(1, "Verify", vfTag(a, vc), s)
+			if vfExplorerPushFn != nil {
+				a, s := w.vfEvalReverify(vc.Addrs, vc.Idx, sigs, vfExplorerVerify, vc.Field, vc.Mode == "copy")
+				tr.Emit(1, "ExplorerVerify", vfTag(a, vc), s)
+			}
+		case "C07X": // replay of an explorer push with two guardian sets
+			if vfExplorerPushFn == nil || len(vc.Sets) != 2 {
+				t.Fatal("C07X vectors need the explorer package")
+			}
+			a, s := vfExplorerSetsEval(worlds[0], vc.Sets[0], vc.Sets[1], vc.Named, len(vc.Idx))
+			tr.Emit(1, "ExplorerVerify", vfTag(a, vc), s)
 		case "C07":
 			if vfQuorumFn == nil {
 				t.Fatal("C07 vectors need a package that links CalculateQuorum")
@@ -745,6 +998,10 @@ func TestVerifFmtVectors(t *testing.T) {
 // ---------------------------------------------------------------- seeded generators (wide concrete domain)
 
 func vfPick(r *rand.Rand, xs ...int) int { return xs[r.Intn(len(xs))] }
+
+// payload lengths at the integer-width boundaries of a length (and around the sizes of plausible internal buffers)
+var vfLenBoundaries = []int{1, 2, 255, 256, 257, 998, 999, 1000, 1001, 1002, 1999, 2000, 2001, 4096, 4999, 5000, 32767, 32768,
+	65534, 65535, 65536, 65537, 70000, 131071, 131072, 131073, 1 << 20}
 
 func vfRandBytes(r *rand.Rand, n int) vfBytes {
 	b := make([]byte, n)
@@ -871,6 +1128,25 @@ func TestVerifFmtTrace(t *testing.T) {
 					vfEmitDecodeAuto(tr, b, "gen-roundtrip")
 				}
 			}
+			// payload lengths at integer-width boundaries (full values: TLC recomputes body and encoding)
+			bl := []int{255, 256, 257, 65536}
+			if N >= 1000 {
+				bl = vfLenBoundaries[:len(vfLenBoundaries)-1] // all but 1<<20 (that one is covered by the shape generator)
+			}
+			for _, plen := range bl {
+				v := vfRandVal(r, vfPick(r, 0, 1), plen)
+				v.Version = vfBytes{byte(lay.Version)}
+				a, s := vfEvalEncode(v)
+				a["src"] = "gen-encode-boundary"
+				tr.Emit(2, "Encode", a, s)
+				if msh, ok := s["marshal"].([]int); ok {
+					b := make([]byte, len(msh))
+					for k, x := range msh {
+						b[k] = byte(x)
+					}
+					vfEmitDecodeAuto(tr, b, "gen-roundtrip-boundary")
+				}
+			}
 		case "procbody": // C04: random messages through the processor's handleMessage (two guardians each)
 			if vfProcBodyFn == nil {
 				t.Fatal("procbody generator needs the processor package")
@@ -926,8 +1202,7 @@ func TestVerifFmtTrace(t *testing.T) {
 				} else {
 					plen = 1 + (i*5000/N+r.Intn(5000/N+1))%5000
 					if i%10 == 3 {
-						plen = vfPick(r, 1, 2, 998, 999, 1000, 1001, 1002, 1999, 2000, 2001, 4096, 4999, 5000,
-							255, 256, 257, 32767, 32768, 65534, 65535, 65536, 65537, 70000, 131071, 131072, 131073, 1<<20) // integer-width boundaries of a length
+						plen = vfLenBoundaries[r.Intn(len(vfLenBoundaries))] // integer-width boundaries of a length
 					}
 				}
 				L := lay.bodyStart(cnt) + lay.BodyFixed + plen
@@ -947,6 +1222,19 @@ func TestVerifFmtTrace(t *testing.T) {
 				a, s := vfEvalShape(b)
 				a["src"] = "gen-shape"
 				tr.Emit(2, "DecodeShape", a, s)
+			}
+			// every integer-width boundary of the payload length, deterministically (also in the thorough tier)
+			for bi, plen := range vfLenBoundaries {
+				cnts := []int{0}
+				if N >= 5000 {
+					cnts = []int{0, 1, 255}
+				}
+				for _, cnt := range cnts {
+					b := vfFillShape(fmt.Sprintf("genshapeb|%s|%d", seedStr, bi), lay.bodyStart(cnt)+lay.BodyFixed+plen, lay.Version, cnt)
+					a, s := vfEvalShape(b)
+					a["src"] = "gen-shape-boundary"
+					tr.Emit(2, "DecodeShape", a, s)
+				}
 			}
 		case "corpus": // C05: the corpus of a coverage-guided fuzzing run (+ inputs its online oracle flagged)
 			dir := os.Getenv("VERIF_FUZZ_CORPUS")
@@ -979,15 +1267,13 @@ func TestVerifFmtTrace(t *testing.T) {
 			})
 			fmt.Printf("VERIF-FMT corpus inputs=%d\n", n)
 		case "verify": // C06: lists of up to 256 addresses, repeated addresses, index 255, random corruptions
-			fns := []struct {
+			type evfn struct {
 				ev string
 				fn vfVerifyFn
-			}{{"Verify", vfRealVerify}}
-			if vfExplorerVerifyFn != nil {
-				fns = append(fns, struct {
-					ev string
-					fn vfVerifyFn
-				}{"ExplorerVerify", vfExplorerVerifyFn})
+			}
+			fns := []evfn{{"Verify", vfRealVerify}}
+			if vfExplorerPushFn != nil {
+				fns = append(fns, evfn{"ExplorerVerify", vfExplorerVerify})
 			}
 			w := vfNewSigWorld(seedStr, 7)
 			for i := 0; i < N; i++ {
@@ -1071,6 +1357,157 @@ func TestVerifFmtTrace(t *testing.T) {
 					a, s := w.vfEvalVerify(names, idx, sigs, f.fn)
 					a["src"] = "gen-verify"
 					tr.Emit(2, f.ev, a, s)
+				}
+			}
+			emit := func(src string, names []string, idx []int) {
+				sigs := make([][65]byte, len(idx))
+				for k, ix := range idx {
+					if ix < len(names) {
+						sigs[k] = w.concrete(names[ix], 0)
+					} else {
+						sigs[k] = w.concrete("x", 0)
+					}
+				}
+				for _, f := range fns {
+					a, s := w.vfEvalVerify(names, idx, sigs, f.fn)
+					a["src"] = src
+					tr.Emit(2, f.ev, a, s)
+				}
+			}
+			distinctNames := func(n int) []string {
+				names := make([]string, n)
+				for k := range names {
+					names[k] = fmt.Sprintf("k%d", k+1)
+				}
+				return names
+			}
+			// (a) order of indices around every width boundary of an index (127/128/129, 255): individually valid
+			// signatures in descending / equal / ascending order, in lists longer than 128
+			for _, n := range []int{129, 130, 200, 255, 256} {
+				names := distinctNames(n)
+				his := []int{126, 127, 128, 129, 130, 139, n - 2, n - 1}
+				los := []int{0, 1, 5, 64, 126, 127, 128, 129}
+				for _, hi := range his {
+					for _, lo := range los {
+						if hi >= n || lo >= n {
+							continue
+						}
+						emit("gen-verify-order128", names, []int{hi, lo}) // descending when lo < hi, equal, or ascending
+						if lo < hi {
+							emit("gen-verify-order128", names, []int{lo, hi})
+						}
+					}
+				}
+				for _, pat := range [][]int{{3, 131, 7, 132}, {0, 128, 1}, {127, 128, 129}, {126, 127, 128, 129, 130}, {130, 5}, {139, 128},
+					{n - 1, 0}, {0, n - 1}, {128, 127}, {128, 128}, {5, 130, 6}, {100, 127, 128, 3}, {1, 2, 200, 3, 4}} {
+					ok := true
+					for _, x := range pat {
+						if x >= n || x < 0 {
+							ok = false
+						}
+					}
+					if ok {
+						emit("gen-verify-order128", names, pat)
+					}
+				}
+				// a quorum-sized ascending list with one pair swapped across 128
+				all := []int{}
+				for k := 0; k < n; k++ {
+					all = append(all, k)
+				}
+				emit("gen-verify-order128", names, all)
+				sw := append([]int{}, all...)
+				sw[5], sw[n-3] = sw[n-3], sw[5]
+				emit("gen-verify-order128", names, sw)
+				sw2 := append([]int{}, all...)
+				sw2[127], sw2[128] = sw2[128], sw2[127]
+				emit("gen-verify-order128", names, sw2)
+			}
+			// (b) lists that repeat an address at adjacent and NON-adjacent positions; the guardian signs at one or at
+			// several of its positions, with other guardians' signatures in between
+			for _, pat := range [][]int{{1, 2, 1}, {1, 2, 3, 1}, {1, 2, 1, 2}, {1, 1, 2, 1}, {1, 2, 3, 4, 1}, {1, 2, 2, 3, 1}, {1, 1}, {1, 2, 3, 2, 4, 1, 5},
+				{1, 2, 3, 4, 5, 6, 7, 8, 9, 1}, {2, 1, 3, 1, 4, 1}} {
+				names := make([]string, len(pat))
+				for k, x := range pat {
+					names[k] = fmt.Sprintf("k%d", x)
+				}
+				n := len(pat)
+				for mask := 1; mask < 1<<uint(n) && mask < 1<<10; mask++ { // every signer subset (ascending)
+					if n > 7 && mask%7 != 3 && mask != (1<<uint(n))-1 && mask != 1|1<<uint(n-1) && mask != 1|2|1<<uint(n-1) {
+						continue
+					}
+					idx := []int{}
+					for k := 0; k < n; k++ {
+						if mask&(1<<uint(k)) != 0 {
+							idx = append(idx, k)
+						}
+					}
+					emit("gen-verify-repeats", names, idx)
+				}
+			}
+			// (c) two-step histories: a list that verifies, then one field of the same VAA value (or of a struct copy) changes
+			for ci, cfg := range []struct{ n, m int }{{1, 1}, {3, 3}, {4, 3}, {19, 13}} {
+				names := distinctNames(cfg.n)
+				idx := []int{}
+				for k := 0; k < cfg.m; k++ {
+					idx = append(idx, k)
+				}
+				sigs := make([][65]byte, len(idx))
+				for k, ix := range idx {
+					sigs[k] = w.concrete(names[ix], 0)
+				}
+				for fi, field := range vfMutations {
+					for _, cp := range []bool{false, true} {
+						if N < 1000 && ci > 1 && (fi+ci)%3 != 0 {
+							continue
+						}
+						for _, f := range fns {
+							a, s := w.vfEvalReverify(names, idx, sigs, f.fn, field, cp)
+							a["src"] = "gen-reverify"
+							tr.Emit(2, f.ev, a, s)
+						}
+					}
+				}
+			}
+		case "explorerquorum": // C07: the explorer's gate uses the quorum of the set the VAA NAMES, whatever the current set is
+			if vfExplorerPushFn == nil {
+				t.Fatal("explorerquorum generator needs the explorer package")
+			}
+			w := vfNewSigWorld(seedStr, 9)
+			sizes := []int{1, 2, 3, 4, 5, 6, 7, 9, 13, 19}
+			if N >= 1000 {
+				sizes = append(sizes, 20, 31, 64, 100)
+			}
+			qOf := func(n int) int { return (2*n)/3 + 1 }
+			for _, nOld := range sizes {
+				for _, nCur := range sizes {
+					for named := 0; named < 2; named++ {
+						nn, other := []int{nOld, nCur}[named], []int{nOld, nCur}[1-named]
+						ms := map[int]bool{qOf(nn) - 1: true, qOf(nn): true, qOf(other) - 1: true, qOf(other): true, nn: true}
+						for m := 0; m <= nn; m++ {
+							if !ms[m] {
+								continue
+							}
+							a, s := vfExplorerSetsEval(w, nOld, nCur, named, m)
+							a["src"] = "gen-explorerquorum"
+							tr.Emit(2, "ExplorerVerify", a, s)
+						}
+					}
+				}
+			}
+		case "redigest": // C04: two-step histories on one VAA value, every field, in place and on a struct copy
+			bases := N / 30
+			if bases < 2 {
+				bases = 2
+			}
+			for i := 0; i < bases; i++ {
+				base := vfRandVal(r, vfPick(r, 0, 1, 2), vfPick(r, 0, 1, 2, 33, 100, 1000, 1001))
+				for _, field := range vfMutations {
+					for _, cp := range []bool{false, true} {
+						a, s := vfEvalRedigest(base, field, cp)
+						a["src"] = "gen-redigest"
+						tr.Emit(2, "Redigest", a, s)
+					}
 				}
 			}
 		case "quorum": // C07: beyond the wire range as well
